@@ -10,7 +10,7 @@ from cgsim import gen as G, ref
 from cgsim.core import fp
 
 ID = "C07"
-QUICK = dict(worlds=16, runs=2500, seconds=15)
+QUICK = dict(worlds=16, runs=4500, seconds=18)
 THOROUGH = dict(worlds=256, runs=6000, seconds=28)
 
 BBTYPES = {"bbA": [["a", "b"], ["y"]], "bbB": [["d"], ["q", "qn"]], "bbC": [["p"], ["z"]],
@@ -45,7 +45,8 @@ CHILDREN = {
         "v": ["buf", ["m"], True]}},
 }
 CHILD_NODE_NAMES = sorted({n for ch in CHILDREN.values() for n in ch["nodes"] if "." not in n})
-CHILD_FOR_TYPE = {"bbA": ["ch1", "ch5", "ch4"], "bbB": ["ch2"], "bbC": ["ch3"], "bbD": ["ch1"], "bbE": ["ch7"], "bbF": ["ch8"], "bbG": ["ch1"]}
+# (ch4 lacks pin b: a model that leaves an input pin unused)
+CHILD_FOR_TYPE = {"bbA": ["ch1", "ch5", "ch4", "ch4"], "bbB": ["ch2"], "bbC": ["ch3"], "bbD": ["ch1"], "bbE": ["ch7"], "bbF": ["ch8"], "bbG": ["ch1"]}
 
 BASE_NAMES = ["a", "b", "c", "d", "e", "f", "g", "h"]
 ODD_NAMES = ["3x", "u.y", "u.a", "u_a", "u_b", "u_y", "v_q", "v_b", "u_k", "zz", ""]
@@ -212,19 +213,28 @@ def gen_op(rng, model, w):
     kinds = ["add", "connect", "disconnect", "remove", "set_output", "add_blackbox", "add_subcircuit", "fill_blackbox"]
     k = rng.choices(kinds, weights=w)[0]
     if k == "add":
+        collide = False
         if rng.random() < 0.75:
             free = [n for n in BASE_NAMES if n not in model.nodes]
             n = rng.choice(free) if free and rng.random() < 0.8 else rng.choice(BASE_NAMES + ODD_NAMES)
         else:
             n = rng.choice(BASE_NAMES + ODD_NAMES)
-        if rng.random() < 0.12:
+        if rng.random() < 0.15:
             # a name that a later composition call will want for itself: <instance>_<pin or child node>
             n = f"{rng.choice(INSTS[:3] if rng.random() < 0.5 else INSTS[:6])}_{rng.choice(CHILD_NODE_NAMES + ['k'])}"
+            if rng.random() < 0.5:
+                # ... aimed at what exists or is likely to come: a pin of a recorded instance, or of the usual ones
+                inst = rng.choice(sorted(model.bbs)) if model.bbs and rng.random() < 0.6 else rng.choice(INSTS[:3])
+                tname = model.bbs.get(inst) or rng.choice(("bbA", "bbB", "bbC"))
+                n = f"{inst}_{rng.choice(BBTYPES[tname][0] + BBTYPES[tname][1])}"
+                collide = True
         t = rng.choice(TYPES) if rng.random() < 0.93 else rng.choice(["foo", "bb_input", "bb_output", "AND"])
+        if collide and rng.random() < 0.6:
+            t = rng.choice(("buf", "not", "and", "input"))     # a driven single-input node shows a merged pin at once
         uid = rng.random() < 0.25
         fi = fo = None
         if t not in ("input", "0", "1", "x") or rng.random() < 0.1:
-            if rng.random() < 0.6 and model.nodes:
+            if (rng.random() < 0.6 or collide) and model.nodes:
                 kmax = 1 if t in ("buf", "not") and rng.random() < 0.85 else 3
                 fi = _pick_names(rng, model, kmax)
                 if rng.random() < 0.05:
@@ -374,6 +384,21 @@ def gen(rng, tier):
         inst = rng.choice(INSTS[:5])
         ops.append(["add_blackbox", tname, inst, {p: p for p in ins} if rng.random() < 0.7 else None])
         ops.append(["fill_blackbox", inst, "self"])
+        for op in ops:
+            model.apply(copy.deepcopy(op))
+    if start is None and not ops and rng.random() < 0.03:
+        # composition around a name that is already taken: a driven node called <inst>_<pin> exists before the instance is
+        # created, connected and filled (with any implementation of its type, including one that leaves pins unused)
+        tname = rng.choice(("bbA", "bbA", "bbB", "bbC"))
+        ins, outs = BBTYPES[tname]
+        inst = rng.choice(INSTS[:5])
+        pin = rng.choice(ins + outs)
+        ops.append(["add", "a", "input", None, None, False, False])
+        ops.append(["add", "c", "input", None, None, False, False])
+        t = rng.choice(("buf", "not", "and", "input", "or"))
+        ops.append(["add", f"{inst}_{pin}", t, None if t == "input" else ["c"], None, rng.random() < 0.3, False])
+        ops.append(["add_blackbox", tname, inst, {p: "a" for p in ins if rng.random() < 0.85}])
+        ops.append(["fill_blackbox", inst, rng.choice(CHILD_FOR_TYPE[tname])])
         for op in ops:
             model.apply(copy.deepcopy(op))
     for _ in range(rng.randint(30, 90) if (tier == "thorough" and rng.random() < 0.3) else rng.randint(5, 40)):
